@@ -120,7 +120,9 @@ def gen_form(rng, V, kind=None):
         c2 = rng.choice(['(= top.clk 1)', '(> top.cnt 3)', '(= INDEX 2)', '#f', '#t', f'(> INDEX {V})'])
         return k, f'(do (step-until {c2}) INDEX)', f'(do (while (&& (! {c2}) (step)) INDEX) INDEX)'
     if k == 'step-while':
-        c2 = rng.choice(['(= top.clk 0)', '(< top.cnt 3)', '#t', '#f', f'(< INDEX {V})'])
+        # the condition is used for its truth value only: a signal value (also an undefined one), a number, a list, a form without a value
+        c2 = rng.choice(['(= top.clk 0)', '(< top.cnt 3)', '#t', '#f', f'(< INDEX {V})', 'top.a', 'top.clk', '(- 3 INDEX)', '(when (< INDEX 2) 1)',
+                         '(if (< INDEX 3) (list INDEX))', '(slice top.cnt 0)', 'top.d'])
         return k, f'(do (step-while {c2}) INDEX)', f'(do (while (&& {c2} (step)) INDEX) INDEX)'
     if k == 'set-index':
         i = rng.choice([0, 1, 3, -1, 99, V, 5, 6, 'MAX-INDEX', '(+ MAX-INDEX 1)', 'INDEX'])      # the trace has six samples: 5 is the last index
@@ -309,6 +311,11 @@ class C15(framework.PropertyCheck):
             ("(defmacro m9 [p] `',p)", '(m9 (if 1 a b))', "'(if 1 a b)"),
             ("(defmacro m9 [p] `(list ',p (length ',p)))", f'(m9 (do {V}))'),
             ("(defmacro m9 [p] `(list ',(first p) ',(length p)))", '(m9 (&& 1 0 x))', "(list '&& 4)"),
+            # code that is evaluated from data inside a local scope is expanded there and runs there: it sees the local variables
+            ("(defmacro m9 [p] `(+ ,p ,p))", f"(let ([k9 (+ {V} 1)]) (list (eval '(when k9 (m9 k9))) (eval '(cond [(> k9 0) (inc k9)] [else 0])) k9))",
+             f'(list (* 2 (+ {V} 1)) (+ {V} 2) (+ {V} 2))'),
+            ("(defmacro m9 [p] `(* 2 ,p))", f"((fn [k9] (list (eval '(unless #f (m9 k9))) (first (eval '(for/list [e9 (list k9 1)] (m9 e9)))))) {V})",
+             f'(list (* 2 {V}) (* 2 {V}))'),
             # an operand that is itself a template: its unquotes belong to the caller and are evaluated when the expansion runs, in the caller's scope
             ("(defmacro m9 [p] `(list ,p ,p))", f'(m9 `(a ,{V}))', f"(list (list 'a {V}) (list 'a {V}))"),
             ("(defmacro m9 [p] `(first ,p))", f'(list (m9 `(,(+ {V} 1) 0)) (last (for/list [e9 `(1 ,{V} ,(+ {V} 1))] (* e9 2))))', f'(list (+ {V} 1) (* 2 (+ {V} 1)))'),
